@@ -1,13 +1,154 @@
-import Ruint.Model.Redc
+import Ruint.Lemmas.RedcUint
 import Ruint.Gen.RedcFacts
 
-/-! # C11 — Montgomery `mul_redc` / `square_redc` (placeholder while the lemmas are re-homed) -/
+/-!
+# C11 — Montgomery multiplication and squaring compute `a·b·R⁻¹ mod m`
+
+Property theorems only. The model functions (`Ruint.Redc.*`, file `Model/Redc.lean`) are the ones the
+correspondence driver executes against `ruint::algorithms::{mul_redc, square_redc}::<N>` and
+`Uint::{mul_redc, square_redc}`; they mirror the Rust loops limb by limb (CIOS with the two interleaved
+carries, `carrying_double_mul_add` with its two-level carry, the threshold arms, `reduce1_carry`/`sub`,
+the `debug_assert!`s, `from_limbs`' assertion) and are instantiated here exactly as in the driver: base
+`W = 2^64`, thresholds `keepMul`/`keepSq` from the **generated** `Ruint/Gen/RedcConsts.lean`, whose soundness
+facts (`Ruint/Gen/RedcFacts.lean`) are re-proved on every run — a changed constant or comparison breaks an
+obligation here. Every theorem quantifies over **all** limb counts `N ≥ 1` / widths and all operands.
+
+`R = W^N`. "`inv·m₀ ≡ −1 (mod 2^64)`" is `(inv * m₀) % W = W - 1`; it implies that `m` is odd.
+A `some r` result means that no `debug_assert!`/`assert!` of the source fires.
+-/
 namespace Ruint.C11
-open Ruint Ruint.Redc
+open Ruint Ruint.Redc Ruint.Gen.RedcConsts
+
+/-- **`mul_redc::<N>`** (slice level, every `N ≥ 1`): for word limbs, `inv·m₀ ≡ −1 (mod 2^64)` and
+    `a, b < m`: the call returns (no assertion fires) `N` words `r` with `r < m` and `r·2^(64N) ≡ a·b (mod m)`. -/
+theorem mul_redc_spec (inv : ℕ) (a b md : List ℕ)
+    (hN : 1 ≤ md.length) (hla : a.length = md.length) (hlb : b.length = md.length)
+    (ha : AllLt a) (hb : AllLt b) (hmd : AllLt md)
+    (hinv : (inv * md.headD 0) % W = W - 1) (haM : val a < val md) (hbM : val b < val md) :
+    ∃ r, mulRedc W keepMul inv a b md = some r ∧ r.length = md.length ∧ AllLt r
+      ∧ val r < val md ∧ (W ^ md.length * val r) % val md = (val a * val b) % val md := by
+  have := mulRedc_spec W keepMul inv a b md hN hla hlb ha hb hmd hinv
+    (by rw [valB_W, valB_W]; exact haM) (by rw [valB_W, valB_W]; exact hbM)
+    (fun top h => Ruint.Gen.RedcFacts.keepMul_sound top h)
+  simpa only [valB_W, allLtB_W] using this
+
+/-- hence `mul_redc = a·b·R⁻¹ mod m` for any inverse `R'` of `R = 2^(64N)` modulo `m`. -/
+theorem mul_redc_value (inv : ℕ) (a b md : List ℕ)
+    (hN : 1 ≤ md.length) (hla : a.length = md.length) (hlb : b.length = md.length)
+    (ha : AllLt a) (hb : AllLt b) (hmd : AllLt md)
+    (hinv : (inv * md.headD 0) % W = W - 1) (haM : val a < val md) (hbM : val b < val md)
+    (ri : ℕ) (hri : (W ^ md.length * ri) % val md = 1) :
+    ∃ r, mulRedc W keepMul inv a b md = some r ∧ val r = (val a * val b * ri) % val md := by
+  obtain ⟨r, h1, _, _, h4, h5⟩ := mul_redc_spec inv a b md hN hla hlb ha hb hmd hinv haM hbM
+  exact ⟨r, h1, redc_unique _ _ ri _ _ h4 h5 hri⟩
+
+/-- **`square_redc::<N>`** (slice level, every `N ≥ 1`): returns `N` words `r < m` with
+    `r·2^(64N) ≡ a² (mod m)`; no assertion fires (in particular `carry_outer ≤ 2` inside the loop, `≤ 1` at the
+    end, and the narrow arm never loses a carry). -/
+theorem square_redc_spec (inv : ℕ) (a md : List ℕ)
+    (hN : 1 ≤ md.length) (hla : a.length = md.length)
+    (ha : AllLt a) (hmd : AllLt md)
+    (hinv : (inv * md.headD 0) % W = W - 1) (haM : val a < val md) :
+    ∃ r, squareRedc W keepSq inv a md = some r ∧ r.length = md.length ∧ AllLt r
+      ∧ val r < val md ∧ (W ^ md.length * val r) % val md = (val a * val a) % val md := by
+  have := squareRedc_spec W keepSq inv a md (by unfold W; omega) hN hla ha hmd hinv
+    (by rw [valB_W, valB_W]; exact haM)
+    (fun top h => Ruint.Gen.RedcFacts.keepSq_sound top h)
+  simpa only [valB_W, allLtB_W] using this
+
+theorem square_redc_value (inv : ℕ) (a md : List ℕ)
+    (hN : 1 ≤ md.length) (hla : a.length = md.length)
+    (ha : AllLt a) (hmd : AllLt md)
+    (hinv : (inv * md.headD 0) % W = W - 1) (haM : val a < val md)
+    (ri : ℕ) (hri : (W ^ md.length * ri) % val md = 1) :
+    ∃ r, squareRedc W keepSq inv a md = some r ∧ val r = (val a * val a * ri) % val md := by
+  obtain ⟨r, h1, _, _, h4, h5⟩ := square_redc_spec inv a md hN hla ha hmd hinv haM
+  exact ⟨r, h1, redc_unique _ _ ri _ _ h4 h5 hri⟩
+
+/-- `mul_redc` and `square_redc` agree: `square_redc(a) = mul_redc(a, a)` as limb arrays. -/
+theorem square_redc_eq_mul_redc (inv : ℕ) (a md : List ℕ)
+    (hN : 1 ≤ md.length) (hla : a.length = md.length)
+    (ha : AllLt a) (hmd : AllLt md)
+    (hinv : (inv * md.headD 0) % W = W - 1) (haM : val a < val md) :
+    squareRedc W keepSq inv a md = mulRedc W keepMul inv a a md := by
+  obtain ⟨r, h1, l1, w1, b1, c1⟩ := square_redc_spec inv a md hN hla ha hmd hinv haM
+  obtain ⟨s, h2, l2, w2, b2, c2⟩ := mul_redc_spec inv a a md hN hla hla ha ha hmd hinv haM haM
+  rw [h1, h2]
+  congr 1
+  apply val_inj r s (by rw [l1, l2]) w1 w2
+  have key : Nat.ModEq (val md) (W ^ md.length * val r) (W ^ md.length * val s) := by
+    unfold Nat.ModEq; rw [c1, c2]
+  have hcop : Nat.gcd (val md) (W ^ md.length) = 1 := by
+    have : Nat.Coprime (W ^ md.length) (val md) := by
+      apply Nat.Coprime.pow_left
+      cases hmd' : md with
+      | nil => rw [hmd'] at hN; simp at hN
+      | cons m0 ms =>
+        rw [hmd'] at hinv
+        simp only [List.headD_cons] at hinv
+        simp only [val_cons]
+        exact (Nat.coprime_add_mul_left_right W m0 (val ms)).mpr
+          (coprime_of_inv W inv m0 (by unfold W; omega) hinv)
+    exact Nat.Coprime.symm this
+  have h3 : val r % val md = val s % val md := Nat.ModEq.cancel_left_of_coprime hcop key
+  rwa [Nat.mod_eq_of_lt b1, Nat.mod_eq_of_lt b2] at h3
+
+/-! ## `Uint::mul_redc`, `Uint::square_redc` -/
+
+/-- **`Uint::<BITS, LIMBS>::mul_redc`** for every width `BITS > 0` (including widths that are not a multiple of
+    64): canonical operands and modulus, `inv·m₀ ≡ −1`, `a, b < m`: returns a canonical `Uint` `r < m` with
+    `r·2^(64·LIMBS) ≡ a·b (mod m)` — neither `from_limbs` nor any `debug_assert!` panics. -/
+theorem uint_mul_redc_spec (bits inv : ℕ) (a b md : List ℕ) (hbits : 0 < bits)
+    (ha : Canon bits a) (hb : Canon bits b) (hmd : Canon bits md)
+    (hinv : (inv * md.headD 0) % W = W - 1) (haM : val a < val md) (hbM : val b < val md) :
+    ∃ r, uintMulRedc keepMul bits inv a b md = some r ∧ Canon bits r ∧ val r < val md
+      ∧ (W ^ nlimbs bits * val r) % val md = (val a * val b) % val md := by
+  have hn := nlimbs_pos bits hbits
+  obtain ⟨r, h1, h2, h3, h4, h5⟩ := mul_redc_spec inv a b md (by rw [hmd.1]; exact hn)
+    (by rw [ha.1, hmd.1]) (by rw [hb.1, hmd.1]) ha.2.1 hb.2.1 hmd.2.1 hinv haM hbM
+  rw [hmd.1] at h2 h5
+  obtain ⟨f1, f2⟩ := fromLimbsChecked_ok bits hbits r md h2 h3 hmd h4
+  refine ⟨r, ?_, f2, h4, h5⟩
+  have hne : bits ≠ 0 := by omega
+  simp only [uintMulRedc, hne, if_false, h1, f1]
+
+/-- **`Uint::<BITS, LIMBS>::square_redc`** for every width `BITS > 0`. -/
+theorem uint_square_redc_spec (bits inv : ℕ) (a md : List ℕ) (hbits : 0 < bits)
+    (ha : Canon bits a) (hmd : Canon bits md)
+    (hinv : (inv * md.headD 0) % W = W - 1) (haM : val a < val md) :
+    ∃ r, uintSquareRedc keepSq bits inv a md = some r ∧ Canon bits r ∧ val r < val md
+      ∧ (W ^ nlimbs bits * val r) % val md = (val a * val a) % val md := by
+  have hn := nlimbs_pos bits hbits
+  obtain ⟨r, h1, h2, h3, h4, h5⟩ := square_redc_spec inv a md (by rw [hmd.1]; exact hn)
+    (by rw [ha.1, hmd.1]) ha.2.1 hmd.2.1 hinv haM
+  rw [hmd.1] at h2 h5
+  obtain ⟨f1, f2⟩ := fromLimbsChecked_ok bits hbits r md h2 h3 hmd h4
+  refine ⟨r, ?_, f2, h4, h5⟩
+  have hne : bits ≠ 0 := by omega
+  simp only [uintSquareRedc, hne, if_false, h1, f1]
 
 /-- `BITS = 0`: both wrappers return `ZERO` (the empty limb list) without touching their arguments. -/
-theorem uint_redc_zero_bits (k : Nat → Bool) (inv : Nat) (a b md : List Nat) :
-    uintMulRedc k 0 inv a b md = some [] ∧ uintSquareRedc k 0 inv a md = some [] := by
+theorem uint_redc_zero_bits (inv : ℕ) (a b md : List ℕ) :
+    uintMulRedc keepMul 0 inv a b md = some [] ∧ uintSquareRedc keepSq 0 inv a md = some [] := by
   simp [uintMulRedc, uintSquareRedc]
+
+/-- the extra-carry thresholds of the current source are sound (generated facts, re-proved each run):
+    the carry is dropped only below `2^63 − 1` resp. `2^62 − 1`-style bounds. -/
+theorem thresholds_sound :
+    (∀ top, keepMul top = false → 2 * (top + 1) ≤ 2 ^ 64)
+    ∧ (∀ top, keepSq top = false → 4 * (top + 1) ≤ 2 ^ 64) :=
+  ⟨Ruint.Gen.RedcFacts.keepMul_sound, Ruint.Gen.RedcFacts.keepSq_sound⟩
+
+/-! Non-vacuity: concrete instances evaluated by the kernel. `m = 2^128 − 159` (top limb `2^64 − 1`: the
+carry-keeping arms, accumulator overflows `2^128`), `a = m − 1`, `b = m − 2`, `inv = −m⁻¹ mod 2^64`;
+and a 65-bit `Uint` (`m = 2^65 − 49`, top limb `1`: the carry-dropping arms, masked top limb). -/
+example : (0xb5efe63d2eb11b5f * 0xffffffffffffff61) % W = W - 1 := by decide +kernel
+example : mulRedc W keepMul 0xb5efe63d2eb11b5f [0xffffffffffffff60, 0xffffffffffffffff]
+    [0xffffffffffffff5f, 0xffffffffffffffff] [0xffffffffffffff61, 0xffffffffffffffff]
+    = some [0x6bdfcc7a5d623681, 0x6236bdfcc7a5d623] := by decide +kernel
+example : squareRedc W keepSq 0xb5efe63d2eb11b5f [0xffffffffffffff60, 0xffffffffffffffff]
+    [0xffffffffffffff61, 0xffffffffffffffff] = some [0xb5efe63d2eb11af1, 0xb11b5efe63d2eb11] := by decide +kernel
+example : uintMulRedc keepMul 65 0x7d6343eb1a1f58d1 [0xffffffffffffffce, 1] [0xffffffffffffffcc, 1]
+    [0xffffffffffffffcf, 1] = some [0x8c6be6d64f8a49d9, 1] := by decide +kernel
 
 end Ruint.C11
